@@ -211,6 +211,120 @@ theorem splitAt_val (U : List Int) (hUr : ∀ x ∈ U, as ≤ x ∧ x < ae) (d :
           | some r' =>
             exact splitAt_val U hUr d k s r' (hw.sub _ hmem) (coordsIn_sub hin hmem).2 hs' p' hp' x1 x0 q hq
 
+/-- the split tree is well-formed and stays inside a universe that is closed under the tile map -/
+theorem splitFiber_ok (U : List Int) (hUr : ∀ x ∈ U, as ≤ x ∧ x < ae) (htile : ∀ x ∈ U, tileOf step x ∈ U)
+    (d : Nat) (f : Tree Int Int (d + 1)) (hw : Ft.WF (d + 1) f) (hin : coordsInB U (d + 1) f = true)
+    (r : Tree Int Int (d + 2))
+    (hr : splitFiber { op := .uniform step, act := some (as, ae) } (0 : Int) d f = some r) :
+    Ft.WF (d + 2) r ∧ coordsInB U (d + 2) r = true := by
+  have hE : Sorted (present (0 : Int) d f) := present_sorted hw.sorted
+  have hspec := uniform_spec step 0 0 as ae false (present (0 : Int) d f) hs hact (Int.le_refl 0) (Int.le_refl 0) hE
+  have hr' : r = partsTree d (uSpec step 0 0 as ae false (present (0 : Int) d f)) := by
+    unfold splitFiber splitFiberParts effActive splitIter at hr
+    simp only at hr
+    rw [hspec] at hr
+    simpa using hr.symm
+  have hrl : (show List (Int × Tree Int Int (d + 1)) from r) =
+      (uSpec step 0 0 as ae false (present (0 : Int) d f)).map (fun p => (p.start, (show Tree Int Int (d + 1) from p.elems))) := by
+    rw [hr']; rfl
+  have hrs : Sorted (show List (Int × Tree Int Int (d + 1)) from r) := by
+    rw [hrl]
+    unfold Sorted
+    rw [List.pairwise_map]
+    have := upper_ascending step 0 0 as ae false (present (0 : Int) d f) hs
+    rw [List.pairwise_map] at this
+    exact this
+  -- every element of the upper fiber is (P, bucket P) for a candidate P with a non-empty bucket
+  have helem : ∀ e ∈ (show List (Int × Tree Int Int (d + 1)) from r), ∃ P, P ∈ uCands step as ae ∧
+      (present (0 : Int) d f).filter (fun x => uMemb step 0 0 as ae P x.1) ≠ [] ∧ e.1 = P ∧
+      (show List (Int × Tree Int Int d) from e.2) = (present (0 : Int) d f).filter (fun x => uMemb step 0 0 as ae P x.1) := by
+    intro e he
+    rw [hrl] at he
+    obtain ⟨p, hp, rfl⟩ := List.mem_map.1 he
+    obtain ⟨P, hP, hne, rfl⟩ := (mem_uSpec step 0 0 as ae false _ _).1 hp
+    exact ⟨P, hP, hne, rfl, rfl⟩
+  have hbucket : ∀ P, ∀ x ∈ (present (0 : Int) d f).filter (fun x => uMemb step 0 0 as ae P x.1),
+      x ∈ (show List (Int × Tree Int Int d) from f) ∧ uMemb step 0 0 as ae P x.1 = true := by
+    intro P x hx
+    obtain ⟨h1, h2⟩ := List.mem_filter.1 hx
+    exact ⟨(mem_present.1 h1).1, h2⟩
+  constructor
+  · refine ⟨hrs, ?_⟩
+    intro e he
+    obtain ⟨P, _, _, _, he2⟩ := helem e he
+    show Sorted (show List (Int × Tree Int Int d) from e.2) ∧ _
+    rw [he2]
+    exact ⟨sorted_filter hE _, fun x hx => hw.sub x (hbucket P x hx).1⟩
+  · show (show List (Int × Tree Int Int (d + 1)) from r).all _ = true
+    rw [List.all_eq_true]
+    intro e he
+    obtain ⟨P, hP, hne, he1, he2⟩ := helem e he
+    rw [Bool.and_eq_true, List.contains_iff_mem]
+    constructor
+    · -- the upper coordinate is the tile of any element of its bucket
+      cases hb : (present (0 : Int) d f).filter (fun x => uMemb step 0 0 as ae P x.1) with
+      | nil => exact absurd hb hne
+      | cons x _ =>
+        obtain ⟨hxf, hxm⟩ := hbucket P x (by rw [hb]; exact List.mem_cons_self ..)
+        simp only [uMemb, inWindow, Bool.and_eq_true, decide_eq_true_eq] at hxm
+        have hd := ((mem_uCands step as ae hs P).1 hP).1
+        rw [he1, tile_unique step P x.1 hs hd (by omega) (by omega)]
+        exact htile _ (coordsIn_sub hin hxf).1
+    · show (show List (Int × Tree Int Int d) from e.2).all _ = true
+      rw [he2, List.all_eq_true]
+      intro x hx
+      obtain ⟨h1, h2⟩ := coordsIn_sub hin (hbucket P x hx).1
+      rw [Bool.and_eq_true, List.contains_iff_mem]
+      exact ⟨h1, h2⟩
+
+theorem splitAt_ok (U : List Int) (hUr : ∀ x ∈ U, as ≤ x ∧ x < ae) (htile : ∀ x ∈ U, tileOf step x ∈ U)
+    (d : Nat) : ∀ (k : Nat) (t : Tree Int Int (d + 1 + k)) (r : Tree Int Int (d + 2 + k)),
+      Ft.WF (d + 1 + k) t → coordsInB U (d + 1 + k) t = true →
+      splitAt { op := .uniform step, act := some (as, ae) } (0 : Int) d k t = some r →
+      Ft.WF (d + 2 + k) r ∧ coordsInB U (d + 2 + k) r = true
+  | 0, t, r, hw, hin, hr => splitFiber_ok step as ae hs hact U hUr htile d t hw hin r hr
+  | k + 1, t, r, hw, hin, hr => by
+    unfold splitAt at hr
+    cases hm : mapM? (fun e => (splitAt { op := .uniform step, act := some (as, ae) } (0 : Int) d k e.2).map (fun t => (e.1, t)))
+        (show List (Int × Tree Int Int (d + 1 + k)) from t) with
+    | none => rw [hm] at hr; cases hr
+    | some l =>
+      rw [hm] at hr
+      have hrl : r = (show Tree Int Int (d + 2 + (k + 1)) from l) := (Option.some.inj hr).symm
+      rw [hrl]
+      have hkeys := keys_mapM? (splitAt { op := .uniform step, act := some (as, ae) } (0 : Int) d k) _ _ hm
+      have hsorted : Sorted l := by
+        have h0 : Sorted (show List (Int × Tree Int Int (d + 1 + k)) from t) := hw.sorted
+        unfold Sorted at h0 ⊢
+        have h1 : ((show List (Int × Tree Int Int (d + 1 + k)) from t).map (·.1)).Pairwise (· < ·) := by
+          rw [List.pairwise_map]; exact h0
+        rw [← hkeys, List.pairwise_map] at h1
+        exact h1
+      -- every element of the result is the split of the element of `t` with the same coordinate
+      have hsub : ∀ e ∈ l, ∃ s,
+          (e.1, s) ∈ (show List (Int × Tree Int Int (d + 1 + k)) from t) ∧
+          splitAt { op := .uniform step, act := some (as, ae) } (0 : Int) d k s = some e.2 := by
+        intro e he
+        have h1 := lookup_of_sorted_mem hsorted he
+        rw [lookup_mapM? (splitAt { op := .uniform step, act := some (as, ae) } (0 : Int) d k) e.1 _ _ hm] at h1
+        cases hl : lookup (show List (Int × Tree Int Int (d + 1 + k)) from t) e.1 with
+        | none => rw [hl] at h1; cases h1
+        | some s =>
+          rw [hl] at h1
+          exact ⟨s, lookup_mem hl, h1⟩
+      constructor
+      · refine ⟨hsorted, ?_⟩
+        intro e he
+        obtain ⟨s, hs1, hs2⟩ := hsub e he
+        exact (splitAt_ok U hUr htile d k s e.2 (hw.sub _ hs1) (coordsIn_sub hin hs1).2 hs2).1
+      · show l.all _ = true
+        rw [List.all_eq_true]
+        intro e he
+        obtain ⟨s, hs1, hs2⟩ := hsub e he
+        rw [Bool.and_eq_true, List.contains_iff_mem]
+        exact ⟨(coordsIn_sub hin hs1).1,
+          (splitAt_ok U hUr htile d k s e.2 (hw.sub _ hs1) (coordsIn_sub hin hs1).2 hs2).2⟩
+
 end
 
 /-! ### cursors built from trees of a given depth -/
